@@ -102,6 +102,9 @@ theorem idxVal_idxMax (ix : List (String × Nat)) (k : String) (v : Nat) (k' : S
   · rw [if_pos h] at hg; simp [idxVal, hg, h]
   · rw [if_neg h] at hg; simp [idxVal, hg, h]
 
+theorem idxVal_congr (ix : List (String × Nat)) {k k' : String} (h : lc k = lc k') : idxVal ix k = idxVal ix k' := by
+  unfold idxVal idxGet; rw [h]
+
 /-! ### every value of the index table is at most `m` -/
 
 def IdxLe (m : Nat) (ix : List (String × Nat)) : Prop := ∀ k v, idxGet ix k = some v → v ≤ m
